@@ -47,7 +47,7 @@ BOUNDS = {
              "tenrand seeds 0-3 + scripted values; diag: element vectors length 1-3 (no zero / each single zero) x {None + "
              "every shape of order 1-3, sizes 1-3}; eye: orders 2,4,6 x sizes 1-3 x 63 integer directions, odd orders "
              "1,3,5 rejected; agg: every word of <=3 subscripts over 2x2 (explicit / inferred / larger shape), (3,), "
-             "(2,1,2) x every value word over {2,-2,3} x 7 reducers, words of 4 subscripts over 2x2 x 9 value words; "
+             "(2,1,2) x every value word over {2,-2,3,0} x 7 reducers, words of 4 subscripts over 2x2 x 9 value words; "
              "sprand (seeded): shapes order<=3,size<=3,cells<=9 x k=0..cells x {nonzeros, density k/cells, count, "
              "fraction, sub-1 density} x seeds 0-7, each twice; script: shapes (2,),(3,),(1,3),(2,2),(2,1,2) x k=1..cells "
              "x {sptenrand, from_function}: every first-attempt draw word x 2 continuations + policies {cycle, reverse "
@@ -319,7 +319,7 @@ def _diag_elements(maxlen):
 
 
 AGG_FNS = ["sum", "max", "min", "prod", "call:max", "call:count", "call:mean"]
-AGG_VALUES = (2.0, -2.0, 3.0)
+AGG_VALUES = (2.0, -2.0, 3.0, 0.0)   # 0.0: an explicit zero input value is a group member like any other
 _NINE = [(0, 0, 0, 0, 0), (0, 1, 0, 1, 0), (1, 0, 2, 0, 1), (2, 1, 0, 2, 1), (0, 1, 2, 0, 1), (2, 2, 1, 1, 0),
          (1, 1, 1, 1, 1), (0, 2, 1, 0, 2), (1, 0, 0, 1, 2)]
 
